@@ -144,6 +144,22 @@ func spShapes(e enum.Embed, k, level int) *BoolSpace {
 		}}
 }
 
+// spThree: B8 - two subject triangles and one clip triangle, each every stride-th member of P(3,3):
+// three mutually interacting paths (winding two deep, coincident edges of different paths).
+func spThree(e enum.Embed, stride uint64, level int) *BoolSpace {
+	n := (enum.PathCount(3, 3) + stride - 1) / stride
+	return &BoolSpace{Name: fmt.Sprintf("B8/(every %d-th of P(3,3))^2 x every %d-th of P(3,3)/%s", stride, stride, e.Name), Level: level, Size: n * n * n, E: e,
+		Gen: func(idx uint64, g *genBuf) (Paths, Paths) {
+			g.reset()
+			g.p[0] = enum.UnrankPath(idx%n*stride, 3, 3, e, g.p[0])
+			g.p[1] = enum.UnrankPath((idx/n)%n*stride, 3, 3, e, g.p[1])
+			g.p[2] = enum.UnrankPath(idx/(n*n)*stride, 3, 3, e, g.p[2])
+			g.s = append(g.s, g.p[0], g.p[1])
+			g.c = append(g.c, g.p[2])
+			return g.s, g.c
+		}}
+}
+
 // boolSpaces returns the closed boolean scopes of a tier, smallest first
 // (iterated bound). which selects families used by the different properties.
 func boolSpaces(tier string) []*BoolSpace {
@@ -156,6 +172,7 @@ func boolSpaces(tier string) []*BoolSpace {
 		for _, e := range region {
 			out = append(out, spPair("B2", e, 3, 3, 3, 4), spTwo(e, 3, 3, 4))
 		}
+		out = append(out, spSingle(enum.Eax, 3, 6, 4), spPair("B2", enum.Ean, 3, 3, 3, 4), spThree(enum.Eax, 10, 5))
 		return out
 	}
 	all := []enum.Embed{enum.Eax, enum.Esh, enum.Ean, enum.Ebig}
@@ -171,6 +188,7 @@ func boolSpaces(tier string) []*BoolSpace {
 	for _, e := range []enum.Embed{enum.Eax, enum.Ean} {
 		out = append(out, spPair("B4", e, 4, 3, 3, 6))
 	}
+	out = append(out, spThree(enum.Eax, 5, 6), spThree(enum.Esh, 7, 6))
 	out = append(out, spShapes(enum.Eax, 5, 6))
 	return out
 }
